@@ -326,7 +326,12 @@ static bool viol_v(const char *prop, const char *key, const char *msg) {
     bool seen = false;
     for (int i = 0; i < nvkeys; i++) if (vkeys[i] == kh) seen = true;
     if (seen) {
-        res_printf("V\t%s\t%s\t-\tcase=%ld op=%ld (repeat)\n", prop, key, vf_cur_case, vf_cur_op);
+        static long repeats;
+        if (++repeats <= 400) res_printf("V\t%s\t%s\t-\tcase=%ld op=%ld (repeat)\n", prop, key, vf_cur_case, vf_cur_op);
+        else if (repeats >= 5000) {          /* the verdict is settled: do not grind through the rest of the workload */
+            res_printf("C\tstopped_early_after_many_repeated_violations\t1\n");
+            _exit(vf_finish());
+        }
         return true;
     }
     if (nvkeys < 256) vkeys[nvkeys++] = kh;
